@@ -211,7 +211,29 @@ def step (st : St) (line : String) : St × String :=
       let (st, s2) := finish st st.b
       (st, s1 ++ " " ++ s2)
     | "close", cn :: _ =>
-      if (b.cli? cn).isNone then (st, "no-conn") else finish st (b.closeIn cn)
+      match b.cli? cn with
+      | none => (st, "no-conn")
+      | some c =>
+        match getS m "burst" with
+        | none => finish st (b.closeIn cn)
+        | some bl =>
+          -- `close <conn> burst=<pid>:<tag>,… q=<qos> topic=<t>`: the publishes are handled in order, then the connection ends;
+          -- the publisher's own part of the output (answers nobody reads) is left out
+          let topic := unesc ((getS m "topic").getD "")
+          let q := getN m "q" 2
+          -- how many of the burst the broker had taken in when it noticed the end is its own business (it stops reading a
+          -- connection it has found dead): `done=<j>` is read off the implementation's output, the model handles that prefix
+          let items := bl.splitOn ","
+          let b' := (items.take (getN m "done" items.length)).foldl (fun (acc : B) it =>
+            match it.splitOn ":" with
+            | [pid, tag] =>
+              let msg : Msg := { topic := topic, tag := tag, plen := tag.utf8ByteSize, qos := q, expiry := 0 }
+              acc.publish { conn := cn, topic := topic, qos := q, pid := natOf pid, retain := false, dup := false, alias := none,
+                            expiry := none, tag := tag, plen := tag.utf8ByteSize, size := totalBytes c.v msg, hints := [], rapHint := [] }
+            | _ => acc) b
+          let (st, s) := finish st (b'.closeIn cn)
+          let keep := (s.splitOn " ").filter (fun part => !(part.startsWith (cn ++ "|")))
+          (st, if keep.isEmpty then "-" else String.intercalate " " keep)
     | "api", "pub" :: topic :: _ =>
       let tag := unesc ((getS m "tag").getD "")
       let msg : Msg := { topic := unesc topic, tag := tag, plen := tag.utf8ByteSize, qos := getN m "q" 0,
